@@ -1,12 +1,36 @@
 // Package props holds one driver + monitor per property.
 package props
 
-import "verif/internal/mon"
+import (
+	"strconv"
+
+	"verif/internal/mon"
+)
 
 // All maps property ids to their checks.
 var All = map[string]*mon.Prop{}
 
-func register(p *mon.Prop) { All[p.ID] = p }
+func register(p *mon.Prop) {
+	All[p.ID] = p
+	if p.ID == "C19" {
+		return // one Serial process that has its own cold concurrent phase
+	}
+	// every check also runs fresh processes ("release#coldconc[N]", see mon.RunChild) whose FIRST calls into the
+	// library arrive from all workers at once: lazily built tables and first-use initialisation are only ever
+	// exercised once per process, and the primary process exercises them serially (cold-start families).
+	inner := p.Flavours
+	p.Flavours = func(tier string) []string {
+		fl := append([]string(nil), inner(tier)...)
+		n := 8
+		if tier == "thorough" {
+			n = 16
+		}
+		for i := 1; i <= n; i++ {
+			fl = append(fl, "release#coldconc"+strconv.Itoa(i))
+		}
+		return fl
+	}
+}
 
 func releaseOnly(string) []string { return []string{"release"} }
 
